@@ -10,6 +10,10 @@ CONSTANTS
   NotifyPop = TRUE
   ReleaseOnEnd = TRUE
   Faults = TRUE
+  StopAfterSend = TRUE
+  CleanupOnDisc = TRUE
+  MaxSendFail = 1
+  Family = "none"
   MaxOps = 7
   MaxCancel = 2
   Depth = 0
@@ -24,4 +28,6 @@ INVARIANT DisconnectAfterPreceding
 INVARIANT NoLostWake
 INVARIANT WaitersConsistent
 INVARIANT NothingLeftRunning
+INVARIANT AfterAppReturn
+INVARIANT AcceptedHasPump
 PROPERTY XSenderLearnsPromptly
